@@ -152,6 +152,8 @@ class Sem:
             return lambda a: a[0] == a[1]
         if name == "asbool":
             return lambda a: as_bool(a[0])
+        if name == "tuplt":
+            return lambda a: as_int(self.op("Apply", [a[0], ("n", 1)])) < as_int(self.op("Apply", [a[0], ("n", 2)]))
         raise ValueError(name)
 
     def body(self, cl):
@@ -173,6 +175,8 @@ class Sem:
             return lambda a: self.op("Mod", [a[0], c])
         if name == "last":
             return lambda a: a[-1]
+        if name == "tupswap":
+            return lambda a: ("T", (self.op("Apply", [a[0], ("n", 2)]), self.op("Apply", [a[0], ("n", 1)])))
         raise ValueError(name)
 
     # ---------------- operators; returns ("ok", v) | ("okstr",) | ("member", frozenset) | ("oneof", set of outcomes)
